@@ -21,16 +21,22 @@ from .. import enc_expr as X
 from .. import gen_expr as GE
 
 PROP = "C11"
-RULE = ("expressions from the C10 generator (70% well-scoped, 30% wild: multi-world leaves, repeated names, Q-factors), "
-        "each with an explicit ordering covering its names: idempotence (canonicalise twice), presentation invariance "
-        "(random shuffle of factor order / product nesting / children and parents order, both sides canonicalised), and "
-        "batches of 40 expressions canonicalised in fresh interpreters under PYTHONHASHSEED in {0,1,2} (quick) or 16 seeds "
-        "(thorough). A case is non-trivial when the expression contains a product with >=2 factors sharing their first child "
-        "name, or a fraction, or a sum that simplifies, and the canonical form differs from the input.")
+RULE = ("(a) structured stream over a common pool of factors (harness/gen_expr.py struct_*): compound fractions whose division "
+        "cross-multiplies into x/x, x/1, 1/x, or leaves shared / repeated factors; equal numerator and denominator in "
+        "different presentations; products that only appear after canonicalising a factor ((x*y)/1, sums of one-likes); "
+        "factors tying on the first child name (P / PP / interventional / sums); leaves whose variables share a name across "
+        "worlds; sums over joint leaves in every range mode; (b) expressions from the C10 generator (70% well-scoped, 30% "
+        "wild: multi-world leaves, repeated names, Q-factors). Each with an explicit ordering covering its names (80%) or "
+        "ordering=None (20%, recomputed at every call): idempotence (canonicalise twice), presentation invariance (random "
+        "shuffle of factor order / product nesting / children and parents order, both sides canonicalised), and batches of "
+        "40 expressions (random and structured) canonicalised in fresh interpreters under PYTHONHASHSEED in {0,1,2} (quick) "
+        "or 16 seeds (thorough). The branches reached on the real canonicaliser are counted as hit_* tags. A case is "
+        "non-trivial when the expression contains a product with >=2 factors sharing their first child name, or a "
+        "fraction, or a sum that simplifies, and the canonical form differs from the input.")
 ASSUMPTIONS = [
     "hash seeds / construction order is a Python-runtime clause (R): decided by running fresh interpreters under several PYTHONHASHSEEDs, not by a theorem (the model represents sets as sorted lists)",
-    "canon_idem is proved for ALL expressions under the orderings canonicalize builds (an explicit ordering is re-sorted by variable name: the hypothesis NameMonotone, shown necessary by a counterexample); the second call with ordering=None recomputes the ordering from the canonical form, which the theorem does not cover (the harness passes the ordering explicitly)",
-    "canon_perm and key_total hold for ALL expressions and orderings; canon_perm is stated one-directionally (a canonical form of e is the canonical form of every presentation e' of e); when canonicalize raises on e nothing is claimed",
+    "normal_form (idempotence + presentation invariance of the public entry point, explicit ordering or ordering=None recomputed at every call) is proved for ALL expressions; an explicit ordering is re-sorted by variable name by ensure_ordering: the hypothesis NameMonotone of the level-table lemmas, shown necessary by a counterexample",
+    "presentation invariance is an equivalence (Present is symmetric): e has the canonical form a iff its presentation e' has; when canonicalize raises on e (Q-factor, uncovered name, zero denominator) it raises on every presentation, possibly with a different exception class, and nothing else is claimed",
     "the Lean theorems are about the hand-written model Y0.Model.Canon/Dsl of the code after the fix commits; the tie to the Python is this run's correspondence check (sampling)",
     "cases where canonicalize raises on both presentations (uncovered name, Q-factor, zero denominator) are outside the property",
 ]
@@ -68,7 +74,10 @@ CORPUS = [
 ]
 
 
-def _ordering_for(rng, e, n_names):
+def _ordering_for(rng, e, n_names, p_none=0.2):
+    """an explicit ordering covering the names of `e`, or None (the default: recomputed from the expression at each call)"""
+    if rng.random() < p_none:
+        return None
     names = sorted(set(GE.all_names(e)) | {n for n in range(n_names) if rng.random() < 0.5})
     rng.shuffle(names)
     return [V(n) for n in names]
@@ -91,9 +100,52 @@ def _load_corpus():
     return [json.loads(f.read_text()) for f in files]
 
 
+def _struct(rng):
+    nn = rng.choice([3, 4, 4, 5])
+    e, lab = GE.struct_expr(rng, nn)
+    return e, nn, lab
+
+
+def structured_cases(rng: random.Random, n: int):
+    """pool-based structured stream (gen_expr.struct_*): compound fractions whose division cross-multiplies into x/x,
+    x/1, 1/x; equal numerator and denominator in different presentations; products that only appear after canonicalising
+    a factor; factors tying on the first child name; variables sharing a name across worlds; repeated factors; Sums over
+    joint leaves in every range mode.  Each once for idempotence and once against a presentation shuffle."""
+    out = []
+    # systematic head: every ratio target x flavour
+    for target in ("xx", "x1", "1x", "shared", "repeat", "general"):
+        for flavour in ("mixed", "samefirst", "worlds"):
+            for _ in range(max(1, n // 400)):
+                nn = rng.choice([3, 4, 4, 5])
+                e, lab = GE.struct_ratio(rng, nn, flavour=flavour, target=target)
+                o = _ordering_for(rng, e, nn)
+                out.append({"kind": "idem", "e": e, "ordering": o, "gen": lab})
+                out.append({"kind": "perm", "e": e, "e2": GE.present_shuffle(rng, e), "ordering": o, "gen": lab})
+    # systematic: products of sibling factors that differ in one deep position (ties of any key that ignores it)
+    for fam in GE.SIBLING_FAMILIES:
+        for _ in range(max(1, n // 130)):
+            nn = rng.choice([3, 4, 4, 5])
+            e, lab = GE.struct_product(rng, nn, family=fam)
+            o = _ordering_for(rng, e, nn)
+            out.append({"kind": "perm", "e": e, "e2": GE.present_shuffle(rng, e), "ordering": o, "gen": lab})
+            if rng.random() < 0.3:
+                out.append({"kind": "idem", "e": e, "ordering": o, "gen": lab})
+    while len(out) < n:
+        e, nn, lab = _struct(rng)
+        o = _ordering_for(rng, e, nn)
+        if rng.random() < 0.45:
+            out.append({"kind": "idem", "e": e, "ordering": o, "gen": lab})
+        else:
+            out.append({"kind": "perm", "e": e, "e2": GE.present_shuffle(rng, e), "ordering": o, "gen": lab})
+    return out
+
+
 def cases(rng: random.Random, tier: str):
+    if os.environ.get("VERIF_EXPR_FAST_SEARCH") == "1":
+        tier = "quick"      # tools/mutate_expr.py only: keeps the runner's extended search at the size of the quick stream
     out = _load_corpus()
-    n = 9000 if tier == "quick" else 60000
+    out += structured_cases(rng, 4000 if tier == "quick" else 20000)
+    n = 4000 if tier == "quick" else 40000
     for _ in range(n):
         e, cfg = _gen(rng)
         o = _ordering_for(rng, e, cfg.n_names)
@@ -103,11 +155,15 @@ def cases(rng: random.Random, tier: str):
             out.append({"kind": "perm", "e": e, "e2": GE.present_shuffle(rng, e), "ordering": o})
     nb = 8 if tier == "quick" else 16
     seeds = [0, 1, 2] if tier == "quick" else list(range(16))
-    for _ in range(nb):
+    for b in range(nb):
         batch = []
         for _ in range(40):
-            e, cfg = _gen(rng)
-            batch.append([e, _ordering_for(rng, e, cfg.n_names)])
+            if b % 2 == 0:
+                e, cfg = _gen(rng)
+                nn = cfg.n_names
+            else:
+                e, nn, _lab = _struct(rng)
+            batch.append([e, _ordering_for(rng, e, nn)])
         out.append({"kind": "seeds", "batch": batch, "hashseeds": seeds, "shuffle": rng.randrange(1 << 30)})
     return out
 
@@ -121,7 +177,7 @@ def _canon(enc, ordering):
     from y0.mutate import canonicalize
 
     e = X.dec_expr(enc)
-    o = [X.dec_var(v) for v in ordering]
+    o = None if ordering is None else [X.dec_var(v) for v in ordering]
     try:
         return canonicalize(e, o), None
     except ERRS as ex:
@@ -140,16 +196,27 @@ def _interesting(enc):
     return False
 
 
+def _feat_tags(case):
+    g = case.get("gen", "random").split(":")
+    t = {"gen": g[0]}
+    if len(g) > 1 and g[1].startswith("composite-"):
+        t["sibling_family"] = g[1][len("composite-"):]
+    for f in GE.features(case["e"], case["ordering"]):
+        t["hit_" + f] = True
+    return t
+
+
 def run_python(case):
     from y0.mutate import canonicalize
 
     kind = case["kind"]
     if kind == "idem":
         c1, err = _canon(case["e"], case["ordering"])
-        tags = {"kind": kind, "well_scoped": GE.well_scoped(case["e"]), "depth": GE.depth(case["e"])}
+        tags = {"kind": kind, "well_scoped": GE.well_scoped(case["e"]), "depth": GE.depth(case["e"]),
+                "ordering": "none" if case["ordering"] is None else "explicit", **_feat_tags(case)}
         if c1 is None:
             return {"out": ["err"], "fail": None, "nontrivial": False, "tags": {**tags, "outcome": "err"}}
-        o = [X.dec_var(v) for v in case["ordering"]]
+        o = None if case["ordering"] is None else [X.dec_var(v) for v in case["ordering"]]
         fail = None
         try:
             c2 = canonicalize(c1, o)
@@ -165,7 +232,8 @@ def run_python(case):
         c1, e1 = _canon(case["e"], case["ordering"])
         c2, e2 = _canon(case["e2"], case["ordering"])
         tags = {"kind": kind, "well_scoped": GE.well_scoped(case["e"]), "depth": GE.depth(case["e"]),
-                "shuffled": case["e"] != case["e2"]}
+                "shuffled": case["e"] != case["e2"], "ordering": "none" if case["ordering"] is None else "explicit",
+                **_feat_tags(case)}
         fail = None
         if c1 is None and c2 is None:
             out = ["err"]
@@ -202,8 +270,9 @@ X_dec_var, X_dec_expr = X.dec_var, X.dec_expr
 out = []
 for enc, ordering in BATCH:
     try:
-        o = [X.dec_var(v) for v in ordering]
-        rng.shuffle(o)
+        o = None if ordering is None else [X.dec_var(v) for v in ordering]
+        if o is not None:
+            rng.shuffle(o)
         c = canonicalize(X.dec_expr(enc), o)
         out.append([json.dumps(X.to_str_tree(X.enc_expr(c))), str(c)])
     except (KeyError, TypeError, ZeroDivisionError, ValueError) as ex:
@@ -237,10 +306,12 @@ def _run_seeds(case):
 # ------------------------------------------------------------------------------------------ model side
 
 def request(case):
+    o = case.get("ordering")
+    oo = "none" if o is None else ["some"] + list(o)
     if case["kind"] == "idem":
-        return C.enc(["expr", "canonicalize_twice", case["e"], case["ordering"]])
+        return C.enc(["expr", "canonicalize_twice_opt", case["e"], oo])
     if case["kind"] == "perm":
-        return C.enc(["expr", "canonicalize_pair", case["e"], case["e2"], case["ordering"]])
+        return C.enc(["expr", "canonicalize_pair_opt", case["e"], case["e2"], oo])
     return None
 
 
@@ -289,9 +360,11 @@ MANIFEST = {
     "text": ("Proof (Lean 4) about the executable model of canonicalize_expr.py + dsl.py after the fix commits: key_total - the "
              "sort key `_get_key` is a strict total order that separates any two different expressions (all expressions); "
              "canon_perm - expressions that differ by factor order, product nesting or children/parents order at any depth "
-             "have identical canonical forms under every ordering (all expressions); canon_idem - canonicalising a canonical "
+             "have identical canonical forms under every ordering (all expressions, both directions); canon_idem - canonicalising a canonical "
              "form returns it unchanged, via a syntactic characterisation of canonical forms (IsCanon) that the canonicaliser "
-             "produces and fixes, for all expressions under the (name-sorted) orderings canonicalize builds. Hash-seed / construction-"
+             "produces and fixes, for all expressions under the (name-sorted) orderings canonicalize builds; normal_form - both clauses for "
+             "the public entry point canonicalize(e, ordering) including ordering=None, where the ordering is recomputed from "
+             "the expression at every call (the canonicaliser only consults the name order). Hash-seed / construction-"
              "order independence is a runtime clause decided on every run by canonicalising batches in fresh interpreters "
              "under several PYTHONHASHSEEDs."),
     "note": ("Trusted: Lean kernel; the hand-written model tied to the code by differential sampling; Python's sorted() is "
